@@ -18,8 +18,10 @@ from mc import explore, report, gen_values as gv
 from mc.env import appenv, ezspenv
 from mc.vloop import VLoop
 
-CMD_TIMEOUT = 10.0
-OP_TIMEOUT = 10.0
+from mc import tunables
+
+CMD_TIMEOUT = tunables.ezsp_cmd_timeout()      # tunables the property names ("the operation timeout") but does not fix
+OP_TIMEOUT = tunables.network_ops_timeout()
 EPS = 1e-9
 
 
@@ -435,7 +437,7 @@ def main(tier: str) -> int:
         "samples": samples[:4],
     }
     rep.assumptions = [
-        "command timeout 10 s and operation timeout 10 s are hard-coded in the oracle",
+        "command timeout and operation timeout are read from bellows (EZSP_CMD_TIMEOUT, NETWORK_OPS_TIMEOUT): tunables the property names but does not fix",
         "scan results that arrive after the completion callback but before the call returns may or may not be included",
         "leak clause reads EZSP._callbacks and EZSP._stack_status_listeners (the property states it in terms of remaining listeners)",
     ]
